@@ -334,6 +334,9 @@ def check_aliases(ctx, rels):
             for node, t in class_level_stores(f.node, (f.cls.name,) if f.cls is not None else ()):
                 ctx.bad("instance-value-on-class:%s" % q.split(".", 1)[-1], "%s:%d" % (rel, node.lineno),
                         "%s stores a value computed from the instance on the class (`%s = ...`): all instances share the slot, so every other instance (another network, another key) finds the value of the one that filled it first" % (q, t))
+            for node, t in charset_strips(f.node):
+                ctx.bad("strip-is-a-character-set:%s" % q.split(".", 1)[-1], "%s:%d" % (rel, node.lineno),
+                        "%s calls `%s`: the argument of strip / rstrip / lstrip is a SET of characters, not a suffix, so characters of the text itself that happen to be in the set are removed as well" % (q, t))
             for node, t in zero_replaced_by_default(f.node):
                 ctx.bad("zero-is-a-value:%s" % q.split(".", 1)[-1], "%s:%d" % (rel, node.lineno),
                         "%s computes `%s` from an integer parameter: an explicitly given 0 is falsy and is replaced by the default, so the caller's value is not the one used" % (q, t))
@@ -526,4 +529,23 @@ def stale_method_aliases(program, cls):
                 mid = [k for k in program.mro(cls)[1:program.mro(cls).index(anc)] if alias in k.attrs or alias in k.methods]
                 if not mid:
                     out.append((alias, v.id, anc))
+    return out
+
+
+def charset_strips(fn):
+    """[(node, text)]: `s.rstrip("xyz")` / lstrip / strip with a constant of several DIFFERENT characters, or with a name bound to
+    such a constant: the argument is a set of characters, not a suffix -- `"0/1p.pub".rstrip(".pub")` is `"0/1"`"""
+    out = []
+    consts = {}
+    for n in ast.walk(fn):
+        if isinstance(n, ast.Assign) and len(n.targets) == 1 and isinstance(n.targets[0], ast.Name) and isinstance(n.value, ast.Constant) and isinstance(n.value.value, (str, bytes)):
+            consts.setdefault(n.targets[0].id, []).append(n.value.value)
+    for n in ast.walk(fn):
+        if isinstance(n, ast.Call) and isinstance(n.func, ast.Attribute) and n.func.attr in ("rstrip", "lstrip", "strip") and len(n.args) == 1:
+            a = n.args[0]
+            vals = [a.value] if isinstance(a, ast.Constant) and isinstance(a.value, (str, bytes)) else (consts.get(a.id, []) if isinstance(a, ast.Name) else [])
+            for v in vals:
+                if len(v) > 1 and len(set(v)) > 1 and any((chr(c) if isinstance(c, int) else c).isalnum() for c in v):
+                    out.append((n, ast.unparse(n)[:60]))
+                    break
     return out
